@@ -60,6 +60,53 @@ pub(super) fn validate_typename_presence(
     Ok(())
 }
 
+/// A subscription must have exactly one root field, also when the root selection is made through
+/// fragment spreads or inline fragments.
+pub(super) fn validate_subscription_root_fields(
+    query: &BoundQuery<'_>,
+) -> Result<(), QueryValidationError> {
+    for operation in query.query.operations.iter() {
+        if !matches!(
+            operation._operation_type,
+            super::operations::OperationType::Subscription
+        ) {
+            continue;
+        }
+
+        if count_root_fields(&operation.selection_set, query.query, &mut BTreeSet::new()) != 1 {
+            return Err(QueryValidationError::new(
+                crate::constants::MULTIPLE_SUBSCRIPTION_FIELDS_ERROR.to_owned(),
+            ));
+        }
+    }
+
+    Ok(())
+}
+
+fn count_root_fields(
+    selection_set: &[SelectionId],
+    query: &Query,
+    visited_fragments: &mut BTreeSet<ResolvedFragmentId>,
+) -> usize {
+    selection_set
+        .iter()
+        .map(|id| match query.get_selection(*id) {
+            Selection::Field(_) | Selection::Typename => 1,
+            Selection::InlineFragment(inline) => {
+                count_root_fields(&inline.selection_set, query, visited_fragments)
+            }
+            Selection::FragmentSpread(fragment_id) => {
+                if visited_fragments.insert(*fragment_id) {
+                    let fragment = query.get_fragment(*fragment_id);
+                    count_root_fields(&fragment.selection_set, query, visited_fragments)
+                } else {
+                    0
+                }
+            }
+        })
+        .sum()
+}
+
 fn selection_set_contains_type_name(
     parent_type_id: TypeId,
     selection_set: &[SelectionId],
